@@ -128,8 +128,22 @@ func (s *Session) verifyFunc(prop string, ct *Contract) *FuncReport {
 	enc.named = ParsePreludeLiterals(s.Prelude)
 	x := &Exec{enc: enc, L: s.L, db: s.DB, sigs: s.Sigs, prelude: s.Prelude, maxPaths: 4096, loopInfo: map[*ssaFunction]*loopInfo{},
 		ghostTy: map[string]ghostInfo{}, prop: prop, singleCoin: map[string]TV{}, lenHint: map[string]int64{}, callerSeqs: map[string]string{}, gasMeters: map[int]GasV{}}
-	x.registerGhosts(fn)
-	rep := x.Verify(fn, ct)
+	var rep *FuncReport
+	func() {
+		defer func() {
+			// a crash of the engine is an engine error of this function (reported as undecided), never a silent exit
+			if r := recover(); r != nil {
+				rep = &FuncReport{Key: ct.Key(), Unverified: fmt.Sprintf("engine crashed: %v", r)}
+			}
+		}()
+		x.registerGhosts(fn)
+		rep = x.Verify(fn, ct)
+	}()
+	for _, o := range []string{"reclaim_succeeds_if_funded", "send_succeeds_if_funded"} {
+		if ct.Opts[o] {
+			rep.Opts = append(rep.Opts, o)
+		}
+	}
 	rep.SrcHash = s.L.SourceHash(fn)
 	rep.Header = enc.Header(s.Prelude)
 	return rep
